@@ -798,10 +798,16 @@ def origin_of(lf: LuaFile, e, depth: int = 0) -> Origin:
 
 def globals_touched(lf: LuaFile, fn) -> set:
     """host-global paths referenced (through aliases) in the body of a function,
-    including nested function bodies"""
+    including nested function bodies; only maximal paths (os.time, not os)"""
     out = set()
+    inner = set()
     for n in walk(fn):
-        if n.kind == "name" or n.kind == "index":
+        if n.kind == "index":
+            o = origin_of(lf, n)
+            if o.kind == "global":
+                inner.add(id(n.obj))
+    for n in walk(fn):
+        if (n.kind == "name" or n.kind == "index") and id(n) not in inner:
             o = origin_of(lf, n)
             if o.kind == "global":
                 out.add(o.path)
